@@ -57,6 +57,7 @@ EXCLUDED_FORMS = [
     "Annotated[int, 'meta']", "Annotated[int, {'k': 1}]", "Annotated[Optional[A], 'x', 2]", 'Annotated["A", "m"]',
     "Callable[P2, int]", "Callable[Concatenate[int, P2], str]", "list[Callable[P2, T]]",
     "List", "Dict", "Tuple", "Callable", "Type", "type", "tuple", "Sequence",
+    '"Annotated[()]"', 'list["Annotated[()]"]',
 ]
 
 # class codes shared with the Coq model
